@@ -503,10 +503,15 @@ def fstr(s):
     return "".join(out)
 
 
+TIGHT_PATHS = ()  # entry names for which `name.entry` is written without parentheses in operand positions
+
+
 def w(e):
     """operand position: parenthesise anything that is not an atom"""
     s = render(e)
     if e[0] in ATOMS or e[0] == "filter":
+        return s
+    if e[0] == "path" and e[1][0] == "name" and e[2] in TIGHT_PATHS:
         return s
     return "(" + s + ")"
 
@@ -548,6 +553,8 @@ def render(e):
     if t == "ctx":
         return "{" + ", ".join("%s: %s" % (k, render(v)) for k, v in e[1]) + "}"
     if t == "path":
+        if e[1][0] == "path":
+            return "(%s).%s" % (render(e[1]), e[2])  # never a dotted name of three segments (C06's known parser defect)
         return "%s.%s" % (w(e[1]), e[2])
     if t == "filter":
         return "%s[%s]" % (w(e[1]), render(e[2]))
